@@ -7,6 +7,7 @@ import (
 	"fmt"
 	"sort"
 	"strings"
+	"sync/atomic"
 
 	"github.com/trustbloc/sidetree-core-go/pkg/api/operation"
 	"github.com/trustbloc/sidetree-core-go/pkg/api/protocol"
@@ -94,6 +95,14 @@ func patchReplace(keys []interface{}, svcs []interface{}) map[string]interface{}
 }
 
 var failingPatch = patchJSON(map[string]interface{}{"op": "remove", "path": "/doesNotExist"})
+
+// panicPatches pass delta validation; the JSON patch library panics on them (missing value / negative index).
+var panicPatches = []map[string]interface{}{
+	patchJSON(map[string]interface{}{"op": "test", "path": "/missing"}),
+	patchJSON(map[string]interface{}{"op": "add", "path": "/arr", "value": []interface{}{"a"}}, map[string]interface{}{"op": "replace", "path": "/arr/-1", "value": "b"}),
+	patchJSON(map[string]interface{}{"op": "add", "path": "/arr", "value": []interface{}{"a"}}, map[string]interface{}{"op": "copy", "from": "/arr/-1", "path": "/y"}),
+}
+
 var invalidPatch = patchAddServices(svcEntry("sbad", strings.Repeat("T", 31), "https://example.com/x"))
 
 // NewUniverse derives keys (types chosen by rng) and the create operation.
@@ -157,14 +166,18 @@ type SignedOpts struct {
 	Origin                interface{}
 	OmitDelta             bool
 	RequestDelta          map[string]interface{}
+	FailPatch             map[string]interface{} // the (valid) patch that fails to apply when DeltaStatus is DeltaFails
 }
 
-func deltaFor(status string, next string, patches []interface{}) (map[string]interface{}, []interface{}) {
+func deltaFor(status string, next string, patches []interface{}, failWith map[string]interface{}) (map[string]interface{}, []interface{}) {
 	switch status {
 	case ref.DeltaInvalid:
 		patches = []interface{}{invalidPatch}
 	case ref.DeltaFails:
 		patches = []interface{}{failingPatch}
+		if failWith != nil {
+			patches = []interface{}{failWith}
+		}
 	}
 	return ref.Delta(next, patches), patches
 }
@@ -180,7 +193,7 @@ func (u *Universe) MkSigned(label, op string, reveal *ref.Key, nextR, nextU stri
 		TamperSignature: o.Tamper, AlterPayload: o.Alter, AnchorOrigin: o.Origin, OmitDelta: o.OmitDelta, DeltaInRequest: o.RequestDelta}
 	var usedPatches []interface{}
 	if op != "deactivate" {
-		s.Delta, usedPatches = deltaFor(status, nextU, patches)
+		s.Delta, usedPatches = deltaFor(status, nextU, patches, o.FailPatch)
 		if status == ref.DeltaMismatch {
 			s.DeltaHashOverride = ref.HashModel(u.Code, ref.Delta(nextU, []interface{}{patchAddServices(svcEntry("other", "t", "https://o.example"))}))
 		}
@@ -256,6 +269,15 @@ func (u *Universe) BuildAlphabet(winFrom, winUntil int64) {
 	add(u.MkSigned("rTI", "recover", u.R[0], cm(u.R[2]), cm(u.U[2]), nil, SignedOpts{Tamper: true, DeltaStatus: ref.DeltaInvalid}))
 	add(u.MkSigned("uSF", "update", u.U[0], "", cm(u.U[1]), nil, SignedOpts{SigningKey: u.X[0], DeltaStatus: ref.DeltaFails}))
 	add(u.MkSigned("dO", "deactivate", u.R[0], "", "", nil, SignedOpts{SignedSuffix: "EiOtherSuffixxxxxxxxxxxxxxxxxxxxxxxxxxxxxxxxxxx"}))
+	// genuine signatures by the key of the other commitment kind (update key on a recover/deactivate, recovery key on an update)
+	add(u.MkSigned("rU", "recover", u.U[0], cm(u.R[1]), cm(u.U[1]), d1, SignedOpts{}))
+	add(u.MkSigned("dU", "deactivate", u.U[0], "", "", nil, SignedOpts{}))
+	add(u.MkSigned("uRk", "update", u.R[0], "", cm(u.U[1]), k2, SignedOpts{}))
+	// patches on which the JSON patch library panics instead of returning an error
+	add(u.MkSigned("uJP", "update", u.U[0], "", cm(u.U[1]), nil, SignedOpts{DeltaStatus: ref.DeltaFails, FailPatch: panicPatches[0]}))
+	add(u.MkSigned("rJP", "recover", u.R[0], cm(u.R[1]), cm(u.U[1]), nil, SignedOpts{DeltaStatus: ref.DeltaFails, FailPatch: panicPatches[1]}))
+	// forged competitor of u12/u10 whose next commitment is one the chain has consumed by then
+	add(u.MkSigned("uTc", "update", u.U[1], "", cm(u.U[0]), s2, SignedOpts{Tamper: true}))
 }
 
 // Place returns a copy of the alphabet op anchored at the given coordinates.
@@ -325,6 +347,14 @@ func SUTResolveSplit(pc protocol.Client, suffix string, allOps []*ref.Op, order 
 			if _, ok := r.(budgetExceeded); ok {
 				panic(r)
 			}
+			if b, ok := r.(resolveBudget); ok {
+				if curCtx != nil {
+					curCtx.Violation(fmt.Sprintf("%s OperationProcessor.Resolve did not terminate within its step budget (%d operation applications for %d operations) :: history [%s]", curCtx.ID, b.calls, len(allOps), histString(ops)),
+						map[string]interface{}{"suffix": suffix, "history": replayOps(ops), "store_order": order, "apply_calls": b.calls})
+				}
+				rm, err = nil, fmt.Errorf("NO TERMINATION in Resolve")
+				return
+			}
 			if curCtx != nil {
 				curCtx.Violation(fmt.Sprintf("%s OperationProcessor.Resolve panicked: %v :: history [%s]", curCtx.ID, r, histString(ops)),
 					map[string]interface{}{"suffix": suffix, "history": replayOps(ops), "store_order": order, "panic": fmt.Sprint(r)})
@@ -356,8 +386,48 @@ func SUTResolveSplit(pc protocol.Client, suffix string, allOps []*ref.Op, order 
 	if len(unpub) > 0 {
 		popts = append(popts, processor.WithUnpublishedOperationStore(&unpubStore{ops: ToAnchored(suffix, unpub)}))
 	}
-	p := processor.New("verif", store, pc, popts...)
+	p := processor.New("verif", store, &budgetClient{inner: pc, budget: int64(4*len(allOps) + 16)}, popts...)
 	return p.Resolve(suffix, opts...)
+}
+
+// resolveBudget is the panic value of the logical-step watchdog around one Resolve call: the unchanged processor applies
+// every stored operation at most once per commitment chain (<= 2n applier calls for n operations).
+type resolveBudget struct{ calls int64 }
+
+type budgetClient struct {
+	inner  protocol.Client
+	calls  int64
+	budget int64
+}
+
+type protoVersion = protocol.Version
+
+type budgetVersion struct {
+	protoVersion
+	c *budgetClient
+}
+
+type budgetApplier struct {
+	inner protocol.OperationApplier
+	c     *budgetClient
+}
+
+func (c *budgetClient) wrap(v protocol.Version, err error) (protocol.Version, error) {
+	if err != nil || v == nil {
+		return v, err
+	}
+	return budgetVersion{v, c}, nil
+}
+func (c *budgetClient) Current() (protocol.Version, error)     { return c.wrap(c.inner.Current()) }
+func (c *budgetClient) Get(t uint64) (protocol.Version, error) { return c.wrap(c.inner.Get(t)) }
+func (v budgetVersion) OperationApplier() protocol.OperationApplier {
+	return budgetApplier{v.protoVersion.OperationApplier(), v.c}
+}
+func (a budgetApplier) Apply(op *operation.AnchoredOperation, rm *protocol.ResolutionModel) (*protocol.ResolutionModel, error) {
+	if n := atomic.AddInt64(&a.c.calls, 1); n > a.c.budget {
+		panic(resolveBudget{n})
+	}
+	return a.inner.Apply(op, rm)
 }
 
 // verdict strings ------------------------------------------------------------
@@ -568,6 +638,15 @@ func (c *Chain) Forgeries(tag string) []*ref.Op {
 	add(c.U.MkSigned(lb("bc-upd-tampered-delta-fails"), "update", c.CurU, "", y.Commitment(code), nil, SignedOpts{Tamper: true, DeltaStatus: ref.DeltaFails}))
 	add(c.U.MkSigned(lb("bc-rec-wrongsigner-window"), "recover", c.CurR, y.Commitment(code), x.Commitment(code), k2, SignedOpts{SigningKey: x, From: 1, Until: 2}))
 	add(c.U.MkSigned(lb("bc-upd-wrongsigner-window"), "update", c.CurU, "", y.Commitment(code), k2, SignedOpts{SigningKey: x, From: 1, Until: 2}))
+	// (f) genuine signature by the key of the other commitment kind: the update key on a recover / deactivate, the recovery key on an update
+	add(c.U.MkSigned(lb("f-rec-by-update-key"), "recover", c.CurU, y.Commitment(code), x.Commitment(code), k2, SignedOpts{}))
+	add(c.U.MkSigned(lb("f-deact-by-update-key"), "deactivate", c.CurU, "", "", nil, SignedOpts{}))
+	add(c.U.MkSigned(lb("f-upd-by-recovery-key"), "update", c.CurR, "", y.Commitment(code), k2, SignedOpts{}))
+	// (g) forged competitors whose next commitment is the current one or one the chain has consumed already
+	add(c.U.MkSigned(lb("g-upd-wrongsigner-next-current"), "update", c.CurU, "", c.CurU.Commitment(code), k2, SignedOpts{SigningKey: x}))
+	add(c.U.MkSigned(lb("g-upd-tampered-next-consumed"), "update", c.CurU, "", c.AllU[0].Commitment(code), k2, SignedOpts{Tamper: true}))
+	add(c.U.MkSigned(lb("g-upd-wrongsigner-next-previous"), "update", c.CurU, "", c.AllU[(len(c.AllU)+len(c.AllU)-2)%len(c.AllU)].Commitment(code), k2, SignedOpts{SigningKey: x}))
+	add(c.U.MkSigned(lb("g-rec-tampered-next-consumed"), "recover", c.CurR, c.AllR[0].Commitment(code), c.AllU[0].Commitment(code), k2, SignedOpts{Tamper: true}))
 	// update whose delta does not match the signed delta hash (tampered delta)
 	add(c.U.MkSigned(lb("c-upd-delta-swapped"), "update", c.CurU, "", y.Commitment(code), k2, SignedOpts{DeltaStatus: ref.DeltaMismatch}))
 	return out
